@@ -4,20 +4,12 @@ package main
 
 import (
 	"github.com/pentops/j5/internal/verifh/j5sgen"
-	"github.com/pentops/j5/internal/verifh/j5sreal"
 	"github.com/pentops/j5/internal/verifh/vh"
 )
 
-func genEvolve(h *vh.H, i int) string  { return "" }
-func genTotal(h *vh.H, i int) string   { return "" }
 func genDet(h *vh.H, i int) string     { return "" }
 func genStrcase(h *vh.H, i int) string { return "" }
 
-func execEvolve(h *vh.H, op string, co *compileOp) string          { return "bad-op" }
-func execTotalAst(h *vh.H, op string, co *compileOp) string        { return "bad-op" }
-func execTotalSrc(h *vh.H, op string, args []*j5sgen.Node) string  { return "bad-op" }
 func execDet(h *vh.H, op string, args []*j5sgen.Node) string       { return "bad-op" }
 func execStrcase(h *vh.H, op string, args []*j5sgen.Node) string   { return "bad-op" }
-func oracleC02(h *vh.H, op, name string, co *compileOp, sk []*j5sreal.SFile) {}
-func oracleC17(h *vh.H, op string, co *compileOp, sk []*j5sreal.SFile, res j5sreal.Result) {}
 func childMain(args []string) {}
